@@ -90,8 +90,10 @@ MC_INIT
     // ---------------------------------------------------------------- split(delims)
     mc::add_check("split_delims", [] {
         Str s = text_input("split(delims)");
-        static const char *DS[4] = {" ", " \t\n", "/.", "ab"};
-        for (int k = 0; k < 4; k++)
+        // "" = the empty set: no byte is a delimiter, a non-empty input is one token.  Every set is handed over in
+        // an exactly sized copy (CS), so a look behind its terminator is a report.
+        static const char *DS[5] = {" ", " \t\n", "/.", "ab", ""};
+        for (int k = 0; k < 5; k++)
         {
             const char *ds = DS[k];
             auto isd = [ds](char c) { return c != 0 && strchr(ds, c) != nullptr; };
@@ -109,7 +111,7 @@ MC_INIT
                               "split(%s, %s) = %s, maximal runs are %s", esc(s).c_str(), esc(ds).c_str(), esc(got).c_str(),
                               esc(want).c_str());
         }
-        mc::more_cases(3);
+        mc::more_cases(4);
     });
 
     // ---------------------------------------------------------------- trim
